@@ -602,3 +602,25 @@ if _os.path.isdir(_EQ):
 
 M('M05j', 'half-width can go negative: growth subtracted from the realtime side only', ['C05'],
   [(SHM_LIB, 'self.bound_nsec + (duration_sec * self.max_drift_ppb as f64) as i64,', 'self.bound_nsec + (duration_sec * self.max_drift_ppb as f64) as i64 - 1_000_000,')], {'C05': ['C05.E3', 'C05.E7']})
+
+
+# ---------------------------------------------------------------- mutants of the enum-encoded state machine (refactoring big1-2 applied first)
+_FSM = 'clock-bound-d/src/shm_writer/clock_state_fsm.rs'
+_UPD = 'clock-bound-d/src/shm_writer.rs'
+
+
+def _E(eid, what, checks, post, expect):
+    ENTRIES[eid] = {'kind': 'mutant', 'what': 'enum FSM: ' + what, 'checks': checks, 'patch': 'selftest/equiv/big1-2.diff', 'edits': [],
+                    'post_edits': post, 'expect': expect}
+
+
+_E('ME1', 'Synchronized + Unknown stays Synchronized', ['C08'],
+   [(_FSM, '(ShmClockState::Synchronized, ChronyClockStatus::Unknown) => ShmClockState::Unknown,', '(ShmClockState::Synchronized, ChronyClockStatus::Unknown) => ShmClockState::Synchronized,')], {'C08': ['C08.D']})
+_E('ME2', 'value() of FreeRunning reports Synchronized', ['C08'],
+   [(_FSM, 'ShmClockState::FreeRunning => ClockStatus::FreeRunning,', 'ShmClockState::FreeRunning => ClockStatus::Synchronized,')], {'C08': ['C08.D']})
+_E('ME3', 'first-measurement gate removed', ['C09'],
+   [(_UPD, 'let clock_status = if self.has_measurement {', 'let clock_status = if true {')], {'C09': ['C09.Q1']})
+_E('ME4', 'initial state Synchronized', ['C08'],
+   [(_FSM, '    #[default]\n    Unknown,', '    Unknown,'), (_FSM, '    Synchronized,\n', '    #[default]\n    Synchronized,\n')], {'C08': ['C08.D']})
+_E('ME5', 'outage step computed but not stored', ['C08'],
+   [(_UPD, 'self.shm_clock_state = self.shm_clock_state.apply_chrony(chrony_status);', 'let _ = self.shm_clock_state.apply_chrony(chrony_status);')], {'C08': ['C08.H']})
